@@ -171,7 +171,7 @@ class C06(Prop):
         cases = []
         small = [p for n in range(2, (6 if ctx.thorough() else 5)) for p in util.all_parents(n)]
         trees = small + [p for p in S.SPECIAL_TREES if len(p) > (5 if ctx.thorough() else 4)]
-        nrand = ctx.scale(10, 120) * budget_scale
+        nrand = ctx.scale(40, 400) * budget_scale
         for _ in range(nrand):
             trees.append(S.random_tree(rng, rng.choice([3, 4, 5, 6, 7])))
         if stream != "main":
@@ -184,7 +184,7 @@ class C06(Prop):
                 cases.append({"par": par, "kind": kind, "sub": sub, "seed": rng.randrange(10 ** 9), "herm": True,
                               "coeffs": j % 4 == 0, "ttno_shuffle": j % 2 == 0, "mode": "default" if j % 5 == 0 else "expm",
                               "nsteps": rng.choice([1, 2, 3]) if len(par) <= 5 else 1, "nterms": rng.choice([1, 2, 3])})
-        for rep in range(ctx.scale(4, 24) * budget_scale):
+        for rep in range(ctx.scale(8, 60) * budget_scale):
             d = rng.choice([2, 3])
             for kind in ("tdvp1", "tdvp2"):
                 cases.append({"par": [None, 0], "kind": kind, "sub": "saturated", "seed": rng.randrange(10 ** 9), "herm": True,
@@ -213,9 +213,14 @@ class C06(Prop):
         return S.eval_models(ctx, cases, obs)
 
     def compare(self, case, ob, mo):
+        S.tally_instance(self, mo)
         if ob.get("construct"):
             return f"implementation raised in the constructor: {ob['exception']}"
         return S.compare_traces(case, ob, mo)
+
+    def extra_obligations(self, ctx):
+        n, ok, fails = self.__dict__.get("_inst", [0, 0, []])
+        return n, ok, fails
 
     def oracle(self, case, ob):
         kind = case["kind"]
